@@ -23,6 +23,7 @@ import (
 	"github.com/apache/skywalking-banyandb/pkg/fs"
 	"github.com/apache/skywalking-banyandb/pkg/logger"
 	pbv1 "github.com/apache/skywalking-banyandb/pkg/pb/v1"
+	"github.com/apache/skywalking-banyandb/pkg/run"
 	resourceSchema "github.com/apache/skywalking-banyandb/pkg/schema"
 	"github.com/apache/skywalking-banyandb/pkg/timestamp"
 )
@@ -183,6 +184,31 @@ func (sp *VerifC17SenderPart) HandoffStreamingPart(handoffRoot, group, topic str
 		release()
 		_ = hc.close()
 	}, nil
+}
+
+// VerifC17SyncWithRetry runs the syncer's real delivery round for this part (initial sync to every node, the
+// FailedPartsHandler retries with its real back-off, the copy into failed-parts/) on a liaison shard rooted at
+// the part's parent directory. A nil error is what lets syncSnapshot remove the part from the queue.
+// It returns the entries of <root>/failed-parts afterwards.
+func (sp *VerifC17SenderPart) VerifC17SyncWithRetry(group string, client queue.Client, nodes []string, failedPartsQuota uint64) ([]string, error) {
+	root := filepath.Dir(sp.Dir)
+	tst := &tsTable{
+		fileSystem: fs.NewLocalFileSystem(), root: root, l: logger.GetLogger("verif-c17-syncer"),
+		loopCloser: run.NewCloser(1), group: group,
+		option: option{tire2Client: client, failedPartsMaxTotalSizeBytes: failedPartsQuota},
+	}
+	defer tst.loopCloser.Done()
+	handler := storage.NewFailedPartsHandler(tst.fileSystem, tst.root, tst.l, failedPartsQuota)
+	tst.getNodes = func() []string { return nodes }
+	err := tst.executeSyncOperation([]*part{sp.p}, map[uint64]struct{}{sp.p.partMetadata.ID: {}}, handler)
+	var out []string
+	if _, serr := os.Stat(filepath.Join(root, storage.FailedPartsDirName)); serr == nil {
+		for _, e := range tst.fileSystem.ReadDir(filepath.Join(root, storage.FailedPartsDirName)) {
+			out = append(out, e.Name())
+		}
+	}
+	sort.Strings(out)
+	return out, err
 }
 
 // TotalCount is the number of rows in the part.
